@@ -16,7 +16,7 @@ each with its full outcome family.  In addition - because the first sentence of 
 observed*, not only of complete outcome families - `sound` is also checked on arbitrary families of non-empty subsets:
 all 127 families over 3 events, a seeded sample of 4000 (thorough: all 32767) families over 4 events, and seeded *partial observations*
 (sub-families of 3-9 outcomes) of every enumerated gate tree - 40 (thorough 300) per tree whose top gate is an OR over plain events and a
-nested gate, 1 (4) per other tree.
+nested gate, 1 (4) per other tree - and 1500 (thorough 20000) random families over 5 events, 500 (6000) over 6.
 And because an inference must be a function of the observed sets alone (no state carried from one event's inference to the next),
 `sound` is re-checked for ~500 (thorough ~3300) families after / before an inference over a *counted* variant of the same family
 (one event repeated in one set) in the same process.
@@ -284,6 +284,13 @@ def main() -> int:
             k = rng.randrange(3, min(len(outs), 9) + 1)
             partial.append(tuple(rng.sample(outs, k)))
     fams += partial
+    # ... and random families of 2-9 non-empty subsets of 5 and of 6 events (no tree behind them at all)
+    for nev, cnt in ((5, 1500 if a.tier == "quick" else 20000), (6, 500 if a.tier == "quick" else 6000)):
+        evs = "ABCDEF"[:nev]
+        subs = [frozenset(c) for r in range(1, nev + 1) for c in itertools.combinations(evs, r)]
+        fams += [tuple(rng.sample(subs, rng.randrange(2, 10))) for _ in range(cnt)]
+    # one wide observation (8 events in one set: 8! orderings go to the miner) alone and next to a second set
+    fams += [(frozenset("ABCDEFGH"),), (frozenset("ABCDEFGH"), frozenset("Z"))]
     n_fam = len(fams)
     cases += [("family", f) for f in fams]
     hist = families(3) + f4[:300 if a.tier == "quick" else 3000] + [tuple(outcomes(t)) for t in cases if not (isinstance(t, tuple) and t and t[0] == "family")
